@@ -12,13 +12,13 @@ LEVEL = 'fault_enumeration'
 FLOORS = {
     'quick': {'distinct_nontrivial': 1200, 'fault:truncate': 1500, 'fault:bitflip-header': 250, 'fault:bitflip-usedfiles': 100, 'fault:bitflip-payload': 500,
               'fault:killed-writer': 16, 'fault:foreign-payload': 16, 'history-steps': 300, 'cache-served-confirmed': 30, 'auto-named-constructions': 60, 'auto-named-served': 8,
-              'recovered-file-valid': 1500, 'step:imported-file-edited': 16, 'step:option-changed': 100, 'step:version-changed': 16,
+              'recovered-file-valid': 1500, 'step:imported-file-edited': 16, 'step:second-imported-file-edited': 12, 'step:packaged-modules': 30, 'step:option-changed': 100, 'step:version-changed': 16,
               'step:other-python-version': 8, 'step:grammar-changed': 40, 'loader-got-past-header': 600},
     'thorough-unused': {'distinct_nontrivial': 20000, 'fault:truncate': 20000, 'fault:bitflip-payload': 3000, 'fault:killed-writer': 200, 'history-steps': 3000,
                  'exhaustive-truncation-files': 16},
 }
 RULE = ("cases = (grammar with an imported file, option set, fault or history step) on one cache path; faults: every k-th "
-        "truncation offset (quick: every 16th + every offset of the header/used-files prologue; thorough: every offset), bit "
+        "truncation offset (quick: every 24th + every offset of the header + every 3rd of the used-files prologue; thorough: every offset), bit "
         "flips in header / used-files / payload, foreign payload behind own header, writer killed after n bytes (real "
         "subprocess, os._exit inside write); history steps: other grammar, each option changed, imported file edited / "
         "restored, lark.__version__ changed, file written by python 3.11; oracle: constructor does not raise, behaviour "
@@ -33,21 +33,27 @@ ASSUMPTIONS = ["bit flips are sampled; truncation offsets are enumerated complet
 
 LIB = 'item: WORD | NUMBER\nWORD: /[a-z]+/\nNUMBER: /[0-9]+/\n'
 LIB2 = 'item: WORD | NUMBER | "<" WORD ">"\nWORD: /[a-z]+/\nNUMBER: /[0-9]+/\n'
+# three files are recorded in the cache file, in this order: lib.lark, lib2.lark, lark's own common.lark (a package resource).
+# A "library text" is lib.lark's text, optionally followed by NUL and lib2.lark's text.
+LIBB = 'SEP: ","\n'
+LIBB2 = 'SEP: "," | "|"\n'
 G_MAIN = '''start: stmt+
 stmt: "let" NAME "=" expr ";" -> let
     | expr ";"
 ?expr: expr "+" term -> add
     | term
 ?term: item | "(" expr ")" | list
-list: "[" [expr ("," expr)*] "]"
+list: "[" [expr (SEP expr)*] "]"
 NAME: /[a-z_]+/
 %import .lib.item
 %import .lib.WORD
 %import .lib.NUMBER
-%ignore /\\s+/
+%import .lib2.SEP
+%import common.WS
+%ignore WS
 '''
 G_ALT = G_MAIN.replace('"let"', '"var"')
-INPUTS = ['let x = 1 + a;', 'a + [1, b, [c]];', 'let y = (a);\n  b + 1;', '[];', 'let = 1;', 'a +;', 'a b;', '(a;', '', 'let x = [1,];', '1 + 2 + 3;\nlet z = q;', '$', 'a; <b>;']
+INPUTS = ['let x = 1 + a;', 'a + [1, b, [c]];', 'let y = (a);\n  b + 1;', '[];', 'let = 1;', 'a +;', 'a b;', '(a;', '', 'let x = [1,];', '1 + 2 + 3;\nlet z = q;', '$', 'a; <b>;', '[a | b, c];']
 OPTION_SETS = [
     {}, {'keep_all_tokens': True}, {'propagate_positions': True}, {'maybe_placeholders': False}, {'lexer': 'basic'}, {'start': ['start', 'expr']},
     {'g_regex_flags': 2}, {'debug': True}, {'priority': 'invert'}, {'priority': None}, {'priority': 'normal'}, {'maybe_placeholders': True}, {'strict': False, 'ordered_sets': False}, {'cache_grammar': True},
@@ -97,10 +103,35 @@ class Env:
         self.uncached = {}
 
     def write_lib(self, text):
+        a, _, b = text.partition('\0')
         with open(self.lib, 'w') as f:
-            f.write(text)
+            f.write(a)
+        with open(os.path.join(self.dir, 'lib2.lark'), 'w') as f:
+            f.write(b or LIBB)
+
+    def write_pkg(self, text):
+        """the same two modules inside an importable package, for FromPackageLoader"""
+        import sys
+        a, _, b = text.partition('\0')
+        self.pkg = 'vpkg_' + ''.join(c if c.isalnum() else '_' for c in os.path.basename(self.dir))
+        d = os.path.join(self.dir, self.pkg, 'grammars')
+        os.makedirs(d, exist_ok=True)
+        open(os.path.join(self.dir, self.pkg, '__init__.py'), 'a').close()
+        with open(os.path.join(d, 'lib.lark'), 'w') as f:
+            f.write(a)
+        with open(os.path.join(d, 'lib2.lark'), 'w') as f:
+            f.write(b or LIBB)
+        if self.dir not in sys.path:
+            sys.path.insert(0, self.dir)
+
+    def pkg_loader(self):
+        from lark.load_grammar import FromPackageLoader
+        return FromPackageLoader(self.pkg, ('grammars',))
 
     def close(self):
+        import sys
+        if self.dir in sys.path:
+            sys.path.remove(self.dir)
         shutil.rmtree(self.dir, ignore_errors=True)
 
     def construct(self, g, opts, cache=True, extra=None):
@@ -309,6 +340,7 @@ def put(env, data):
 
 
 def faults_for(ctx, env, g, opts, libtext, rng, tier, exhaustive):
+    env.write_lib(libtext)
     data = fresh_file(env, g, opts)
     if data is None:
         ctx.inconc('could not write a cache file', {'grammar': g, 'opts': opts})
@@ -322,7 +354,7 @@ def faults_for(ctx, env, g, opts, libtext, rng, tier, exhaustive):
     if exhaustive:
         offs = list(range(n))
     else:
-        offs = sorted(set(range(0, u + 8)) | set(range(0, n, 16)) | {n - 1, n - 2, h, h - 1, u, u - 1, u + 1} | set(rng.sample(range(n), 20)))
+        offs = sorted(set(range(0, h + 8)) | set(range(h, u + 8, 3)) | set(range(0, n, 24)) | {n - 1, n - 2, h, h - 1, u, u - 1, u + 1} | set(rng.sample(range(n), 20)))
         offs = [o for o in offs if 0 <= o < n]
     for k in offs:
         if not ctx.time_left():
@@ -401,6 +433,7 @@ Lark(open(sys.argv[2]).read(), parser='lalr', source_path=sys.argv[2], cache=sys
 
 
 def killed_writer(ctx, env, g, opts, libtext, rng, count):
+    env.write_lib(libtext)
     data = fresh_file(env, g, opts)
     if data is None or opts:
         return
@@ -493,7 +526,7 @@ def history(ctx, env, rng):
     cur, cur_extra = None, ''       # what the file on disk was last written for
     steps = []
     for i in range(rng.randint(6, 12)):
-        kind = rng.choice(['same', 'grammar', 'option', 'option', 'lib-edit', 'version', 'unhashable', 'import-paths'])
+        kind = rng.choice(['same', 'grammar', 'option', 'option', 'lib-edit', 'lib2-edit', 'version', 'unhashable', 'import-paths', 'package', 'package'])
         g = G_MAIN
         opts = {}
         extra = None
@@ -504,8 +537,21 @@ def history(ctx, env, rng):
         elif kind == 'option':
             opts = dict(rng.choice(OPTION_SETS))
         elif kind == 'lib-edit':
-            libtext = LIB2 if libtext == LIB else LIB
+            a, _, b = libtext.partition('\0')
+            libtext = (LIB2 if a == LIB else LIB) + '\0' + (b or LIBB)
             env.write_lib(libtext)
+        elif kind == 'lib2-edit':
+            # the second of the recorded files changes, the first and the last stay
+            a, _, b = libtext.partition('\0')
+            libtext = a + '\0' + (LIBB2 if (b or LIBB) == LIBB else LIBB)
+            env.write_lib(libtext)
+        elif kind == 'package':
+            # the modules come from an installed package (FromPackageLoader); one of its two files was edited since
+            which = rng.choice(['A', 'B', 'C'])
+            env.write_pkg({'A': LIB, 'B': LIB2, 'C': LIB + '\0' + LIBB2}[which])
+            g = G_MAIN.replace('%import .lib', '%import lib')
+            extra, extra_key = {'import_paths': [env.pkg_loader()]}, ''
+            opts = {'_package_content': which}
         elif kind == 'version':
             ver = rng.choice(['0.0.1', '99.0'])
         elif kind == 'import-paths':
@@ -534,8 +580,8 @@ def history(ctx, env, rng):
         try:
             same_key = cur == key
             changed = cur is not None and not same_key
-            fk = {'grammar': 'grammar-changed', 'option': 'option-changed', 'lib-edit': 'imported-file-edited', 'version': 'version-changed',
-                  'import-paths': 'import-paths-changed'}.get(kind)
+            fk = {'grammar': 'grammar-changed', 'option': 'option-changed', 'lib-edit': 'imported-file-edited', 'lib2-edit': 'second-imported-file-edited',
+                  'version': 'version-changed', 'import-paths': 'import-paths-changed', 'package': 'packaged-modules'}.get(kind)
             if fk:
                 ctx.count('step:' + fk)
             # the file on disk was written for (cur, cur_extra); lark's key cannot see `extra`
@@ -613,11 +659,11 @@ def run_batch(ctx):
         opts = dict(OPTION_SETS[b % len(OPTION_SETS)])
         g = G_MAIN if b % 3 else G_ALT
         ctx.sample({'grammar': g, 'opts': opts, 'lib': LIB, 'faults': 'truncate/bitflip/foreign-payload/killed-writer + history'})
+        for _ in range(3 if tier == 'quick' else 12):
+            if ctx.time_left(0.5):
+                history(ctx, env, rng)
         faults_for(ctx, env, g, opts, LIB, rng, tier, exhaustive=(tier == 'thorough' and b < 16))
         killed_writer(ctx, env, G_MAIN, {}, LIB, rng, 2 if tier == 'quick' else 6)
-        for _ in range(3 if tier == 'quick' else 12):
-            if ctx.time_left():
-                history(ctx, env, rng)
         auto_named(ctx, env, rng)
         if b % 2 == 0:
             other_python(ctx, env, rng)
